@@ -69,7 +69,8 @@ def _rs(r):
 REQUIRE = {"evals_direct": 3000, "evals_acse": 1000, "evals_unrestricted": 1000, "lists_128": 3, "lists_empty": 3,
            "lists_dup_abstract": 200, "result_0x00": 2000, "result_0x01": 200, "result_0x03": 500,
            "result_0x04": 500, "replies_checked": 500, "stale_layout_contexts": 200,
-           "unrestricted_storage_like": 500, "pref_differs_from_requestor_order": 200}
+           "unrestricted_storage_like": 500, "pref_differs_from_requestor_order": 200,
+           "classification_uids_probed": 90}
 for _p in ROLE_PROPOSALS:
     for _s in SUPPORTED_ROLES:
         REQUIRE["cell_%s_%s" % (_rs(_p), _rs(_s))] = 4
@@ -86,6 +87,7 @@ def gen_cases(tier, seed):
     per_t = 450
     for b in range((len(tab) + per_t - 1) // per_t):
         cases.append({"seed": seed, "kind": "table", "block": b, "lo": b * per_t, "hi": min(len(tab), (b + 1) * per_t)})
+    cases.append({"seed": seed, "kind": "classify", "block": 0})
     n = 16000 if tier == "quick" else 800000
     per = 250 if tier == "quick" else 5000
     for b in range(n // per):
@@ -128,6 +130,30 @@ def table_inputs():
                                 if layout.endswith("idrev"):
                                     supported.reverse()
                             out.append({"proposed": proposed, "supported": supported, "roles": roles, "mode": mode})
+    return out
+
+
+def classify_inputs(counters):
+    """Unrestricted mode, every abstract syntax of refneg.WIDE_POOL (71 non-storage SOP classes, 27 storage,
+    private, unassigned): alone with nothing supported, and with a supported context of its own (explicit roles
+    + a role proposal).  The tables are the reference's own transcription of PS3.6 Table A-1; as a guard against
+    a transcription slip only UIDs that pydicom's UID dictionary also lists as (Meta) SOP Class are used."""
+    from pydicom._uid_dict import UID_dictionary
+    out = []
+    for uid, (name, cat) in sorted(refneg.WIDE_POOL.items()):
+        if cat in ("storage", "non-storage"):
+            ent = UID_dictionary.get(uid)
+            if not ent or ent[1] not in ("SOP Class", "Meta SOP Class") or (("Storage" in ent[0]) != (cat == "storage")
+                                                                         and "Storage Commitment" not in ent[0]):
+                counters["classification_uids_unconfirmed"] += 1
+                continue
+        counters["classification_uids_probed"] += 1
+        ver = "1.2.840.10008.1.1"
+        other = [[3, ver, [TS[0]]]] if uid != ver else []
+        out.append({"proposed": [[1, uid, [TS[2], TS[0]]]] + other, "supported": [], "roles": {}, "mode": "unrestricted"})
+        out.append({"proposed": other + [[5, uid, [TS[2], TS[0], TS[1]]]],
+                    "supported": [[uid, [TS[1], TS[0]], True, True], [ver, [TS[0]], None, None]],
+                    "roles": {uid: [True, True]}, "mode": "unrestricted"})
     return out
 
 
@@ -316,6 +342,24 @@ def observe_acse(inp):
 
 # ------------------------------------------------------------------------------------ oracle
 
+def real_treats_as_storage_like(uid):
+    """Probe (cached per worker): does the real unrestricted negotiation accept `uid` with nothing supported?"""
+    cache = _STATE.setdefault("class", {})
+    if uid not in cache:
+        from pynetdicom import presentation
+        from pynetdicom.presentation import PresentationContext
+        cx = PresentationContext()
+        cx.context_id = 1
+        cx.abstract_syntax = uid
+        cx.transfer_syntax = [TS[2], TS[0]]
+        try:
+            out, _ = presentation.negotiate_unrestricted([cx], [], None)
+            cache[uid] = len(out) == 1 and out[0].result == 0x00
+        except Exception:
+            cache[uid] = None
+    return cache[uid]
+
+
 def check(inp, obs, counters):
     """Postconditions P1..P7 on one observation; returns violation dicts."""
     mode = inp["mode"]
@@ -330,6 +374,7 @@ def check(inp, obs, counters):
     def viol(key, detail):
         V.append({"key": key, "detail": "%s ; input=%r ; observed=%r" % (detail, _short(inp), _short_obs(obs))})
 
+    # P1
     by_id = {p[0]: p for p in proposed}
     seen = {}
     for row in obs["results"]:
@@ -344,7 +389,26 @@ def check(inp, obs, counters):
         if cid not in seen:
             viol("result-list|missing-id|%s" % mode, "no result for proposed id %r" % (cid,))
 
-    # replies (P6)
+    # unrestricted mode: which abstract syntaxes does the real code classify differently from PS3.4/the doc text?
+    # Reported once per abstract syntax under its own mechanism key; the remaining postconditions are not
+    # evaluated for those contexts (they would only restate the same root cause under other keys).
+    misclassified = set()
+    if unrestricted:
+        for ab in sorted(set(p[1] for p in proposed)):
+            ref_sl = refneg.is_storage_like(ab)
+            real_sl = real_treats_as_storage_like(ab)
+            if real_sl is None or real_sl == ref_sl:
+                continue
+            misclassified.add(ab)
+            if ref_sl:
+                viol("unrestricted-classification|%s-negotiated-as-normal" % refneg.category(ab),
+                     "%s (%s) is not accepted by the unrestricted storage service" % (ab, refneg.WIDE_POOL.get(ab, ("?",))[0]))
+            else:
+                viol("unrestricted-classification|known-non-storage-sop-class-treated-as-storage|%s" % ab,
+                     "%s (%s) is a known non-storage SOP class but the unrestricted mode accepts it without a "
+                     "supported context" % (ab, refneg.WIDE_POOL.get(ab, ("?",))[0]))
+
+    # P6
     rep = {}
     for uid, scu, scp in obs["replies"]:
         counters["replies_checked"] += 1
@@ -352,6 +416,8 @@ def check(inp, obs, counters):
             viol("role-reply|duplicate-sop-class|%s" % mode, "two role replies for %s" % uid)
             continue
         rep[uid] = (scu, scp)
+        if uid in misclassified:
+            continue
         if not isinstance(scu, bool) or not isinstance(scp, bool):
             viol("role-reply|not-bool|%s" % mode, "reply %r for %s" % ((scu, scp), uid))
             continue
@@ -372,17 +438,22 @@ def check(inp, obs, counters):
         _, p_ab, p_ts = by_id[cid]
         e = exp["results"][cid]
         counters["contexts_checked"] += 1
-        storage_like = unrestricted and refneg.is_storage_like(p_ab)
-        prop = roles.get(p_ab)
-        sr = None if (storage_like or p_ab not in sup) else (sup[p_ab][2], sup[p_ab][3])
-        if storage_like:
-            counters["unrestricted_storage_like"] += 1
         if ab != p_ab:
             viol("abstract-syntax-changed|%s" % mode, "id %d: proposed %s, result carries %s" % (cid, p_ab, ab))
         if res in (0, 1, 2, 3, 4):
             counters["result_0x%02x" % res] += 1
+        if p_ab in misclassified:
+            counters["contexts_skipped_misclassified"] += 1
+            continue
+        storage_like = unrestricted and refneg.is_storage_like(p_ab)
+        cls = "storage-like" if storage_like else "negotiated"
+        prop = roles.get(p_ab)
+        sr = None if (storage_like or p_ab not in sup) else (sup[p_ab][2], sup[p_ab][3])
+        if storage_like:
+            counters["unrestricted_storage_like"] += 1
+        # P2
         if e["result"] is not None and res != e["result"]:
-            viol("result-code|%s|expected-0x%02x|got-%s|%s" % (mode, e["result"], _hx(res), e["why"]),
+            viol("result-code|%s|%s|expected-0x%02x|got-%s|%s" % (mode, cls, e["result"], _hx(res), e["why"]),
                  "id %d (%s): expected result 0x%02x (%s), got %s" % (cid, p_ab, e["result"], e["why"], _hx(res)))
         if e["why"] in ("role-table", "supported-role-None", "no-role-proposal", "no-usable-role"):
             counters["cell_%s_%s" % (_rs(prop), _rs(sr))] += 1   # role table consulted for this context
@@ -409,7 +480,7 @@ def check(inp, obs, counters):
             if len(common) > 1 and common[0] != e["ts"]:
                 counters["pref_differs_from_requestor_order"] += 1
         # P4/P5
-        rolekey = "%s|rq=%s|ac=%s" % (mode, _rs(prop), "storage-like" if storage_like else _rs(sr))
+        rolekey = "%s|%s|rq=%s|ac=%s" % (mode, cls, _rs(prop), "any" if storage_like else _rs(sr))
         if not isinstance(as_scu, bool) or not isinstance(as_scp, bool):
             viol("roles|not-bool|%s" % mode, "id %d accepted with as_scu=%r as_scp=%r" % (cid, as_scu, as_scp))
             continue
@@ -431,7 +502,8 @@ def check(inp, obs, counters):
             view = refneg.negotiate_as_requestor_ref([(cid, p_ab, p_ts)], [(cid, 0x00, ts[0] if ts else None)],
                                                      roles, {} if r is None else {p_ab: r})[cid]
             if view["documented"] and not refneg.complementary(view, as_scu, as_scp):
-                viol("role-reply|inconsistent-with-acceptor-roles|%s|reply=%s" % (rolekey, _rs(r)),
+                viol("role-reply|inconsistent-with-acceptor-roles|%s|%s|reply=%s|rq=%s|ac=%s"
+                     % (mode, cls, _rs(r), _rs(prop), "any" if storage_like else _rs(sr)),
                      "id %d (%s): acceptor holds (as_scu, as_scp)=%r but a requestor reading reply %r to proposal %r "
                      "holds (as_scu, as_scp)=%r" % (cid, p_ab, (as_scu, as_scp), r, prop,
                                                     (view["as_scu"], view["as_scp"])))
@@ -490,7 +562,8 @@ def _canon(inp, path):
 def _new_counters():
     c = {k: 0 for k in REQUIRE}
     c.update({"contexts_checked": 0, "result_0x02": 0, "inputs_rejected_by_api": 0, "evals_normal": 0,
-              "acse_mode_choice_checked": 0})
+              "acse_mode_choice_checked": 0, "contexts_skipped_misclassified": 0,
+              "classification_uids_probed": 0, "classification_uids_unconfirmed": 0})
     return c
 
 
@@ -541,6 +614,8 @@ def run_case(case):
     elif case["kind"] == "table":
         tab = table_inputs()
         work = [(inp, ["direct", "acse"]) for inp in tab[case["lo"]:case["hi"]]]
+    elif case["kind"] == "classify":
+        work = [(inp, ["direct"]) for inp in classify_inputs(counters)]
     else:
         rng = rng_for(case["seed"], PID, "random", case["block"])
         work = []
